@@ -36,10 +36,14 @@ Value& SIGNExpression::value(Context & ctx) const
   case Type::NO_TYPE:
     break;
   case Type::INTEGER:
-    v = Value(Integer(*val.integer() < 0 ? -1 : *val.integer() > 0 ? 1 : 0));
+    if (val.isNull())
+      v = Value(Value::type_integer);
+    else
+      v = Value(Integer(*val.integer() < 0 ? -1 : *val.integer() > 0 ? 1 : 0));
     break;
   case Type::NUMERIC:
-    v = Value(Numeric(*val.numeric() < 0.0 ? -1.0 : *val.numeric() > 0.0 ? 1.0 : 0.0));
+    if (!val.isNull())
+      v = Value(Numeric(*val.numeric() < 0.0 ? -1.0 : *val.numeric() > 0.0 ? 1.0 : 0.0));
     break;
   default:
     throw RuntimeError(EXC_RT_FUNC_ARG_TYPE_S, KEYWORDS[oper]);
